@@ -5,7 +5,10 @@ import tr_jit
 
 
 def run(v, tier, seed, g):
-    restore = tr_jit.generate()
+    try:
+        restore = tr_jit.generate()
+    except tr_jit.TranslationError:
+        restore = True      # the gate has recorded the failed translation; the schedules below are the search for a failing input
     n = 120 if tier == "quick" else 3000
     specs = jitconf.schedules(seed, n, faults=False, kills=False)
     runs, errs = jitconf.run_real(specs)
@@ -26,12 +29,13 @@ def run(v, tier, seed, g):
         ends = r["events"]
         # count real completed compiles = granted compile_end stops with Normal
         ok = "LoadedPartial" not in r["outcomes"] and all(o in ("Loaded", "RaisedTimeout") for o in r["outcomes"]) \
-            and r["outcomes"].count("Loaded") >= 1 and r["fs"]["cached"] and r["fs"]["so"] == "SoComplete"
+            and r["outcomes"].count("Loaded") >= 1 and r["fs"]["cached"] and r["fs"]["so"] == "SoComplete" \
+            and r.get("real_compiles", 1) == 1
         v.oblige(ok)
         nontriv.add(tuple(jitconf.ev(e) for e in r["events"]))
         if not ok:
-            v.violation("c14-schedule", f"a fault-free schedule ended with outcomes {r['outcomes']} and files {r['fs']}",
-                        {"schedule": r["spec"], "events": [jitconf.ev(e) for e in r["events"]], "outcomes": r["outcomes"], "fs": r["fs"]})
+            v.violation("c14-schedule", f"a fault-free schedule ended with outcomes {r['outcomes']}, {r.get('real_compiles')} compile(s) and files {r['fs']} {r.get('errors') or ''}",
+                        {"schedule": r["spec"], "events": [jitconf.ev(e) for e in r["events"]], "outcomes": r["outcomes"], "fs": r["fs"], "compiles": r.get("real_compiles"), "errors": r.get("errors")})
         elif len(v.samples) < 3:
             v.samples.append({"events": [jitconf.ev(e) for e in r["events"]][:40], "outcomes": r["outcomes"], "fs": r["fs"]})
     for m_, r in zip(model, runs):
